@@ -1,5 +1,6 @@
 #![recursion_limit = "512"]
 //! ssim: deterministic simulation of beff compile sessions (C04, C10, C14) + tools for jsim.
+mod bridge;
 mod coord;
 mod edits;
 mod exec;
@@ -26,12 +27,14 @@ pub fn components_table() -> serde_json::Value {
             "what": "packages/beff-wasm/ts-node/bundler.ts of the working tree is type-stripped and run under Node with the committed tsc-slim resolver (stand-ins for the wasm package, chalk, code-frame); js/hostprobe.mjs asks it whether resolve_import keeps positive / negative answers from one build to the next and whether a kept answer survives the deletion of its file; SimHost mirrors what was seen. The resolver model is compared with the real resolveModuleName on 400 seeded file layouts",
             "host_model": host_model_json(),
             "js_host_leg_of_C14": json_file("hostleg.json"),
-            "js_host_leg_of_C10": json_file("hostdet.json")
+            "js_host_leg_of_C10": json_file("hostdet.json"),
+            "end_to_end_leg_of_C14": json_file("e2eleg.json")
         },
         "stub": [
             "bundler.ts host functions + commandeer.ts watch loop + chokidar + tsc-slim resolveModuleName -> SimHost / deliver(f) / resolve_in (written from the sources, cache lifetime and resolver answers checked against the real code by js/hostprobe.mjs)",
             "bundle-to-disk.ts finalizeParserV2File -> string concatenation re-stated in tools.rs (self-tested against committed e2e outputs); every fourth module of the Node leg and the JavaScript legs of C10 / C14 run the working tree's own bundle-to-disk.ts instead"
         ],
+        "real_end_to_end": "js/e2eleg.mjs (C14): the working tree's commandeer.ts / bundler.ts / bundle-to-disk.ts / project.ts in watch mode on a real scratch directory with the real compiler session (this binary, `sim bridge`) behind them - no model of the host, no stand-in compiler; stand-ins only for chokidar (watchers fired by the leg), commander, chalk, @babel/code-frame",
         "not_run": ["wasm-bindgen export wrappers, JsValue marshalling, init()"],
         "simulated": ["OS randomness (getrandom) for std HashMap keys", "file system", "change notifications", "host read/resolve faults"],
         "os_threads": "real, used as containers for simulated processes; exactly one runnable at a time"
@@ -156,6 +159,7 @@ fn main() {
             println!("{}", serde_json::to_string(&cases).unwrap());
             0
         }
+        "bridge" => bridge::bridge(&args[2], &args[3], args.get(4).and_then(|s| s.parse().ok()).unwrap_or(7)),
         "strip" => strip::strip_file(&args[2], &args[3]),
         "compile" => tools::compile_cmd(&args[2..]),
         "prepare-js" => tools::prepare_js(&args[2]),
